@@ -35,7 +35,9 @@ COMMANDS = {
     "loop_abort": ("for qq in [1, 2, 3] do if qq == 2 then error 'in loop' end", "", True),
     "def_then_fail": ("def late = 7; def late2 = late + 1; error 'after defs'", "def late = 7; def late2 = late + 1", True),
     "read_late": ("late2", "", None),
-    "read_q": ("qq", "", True),
+    "read_q": ("qq", "", None),
+    "def_q": ("def qq = 5", None, False),
+    "loop_ok": ("for qq in [7, 8] do qq end", None, False),
     "loop_abort2": ("for [qa, qb] in [[1, 2], [3, 4]] do if qa == 3 then error 'in loop' end", "", True),
     "read_qb": ("[qb]", "", True),
     "loop_abort3": ("for [qa, qb, qc] in <<[1, 2, 3]>> do error qc end", "", True),
@@ -44,6 +46,10 @@ COMMANDS = {
     "read_z1": ("z1", "", True),
     "block_fail": ("do def inblock = 3; error 12 finally println('fin') end", "def inblock = 3; println('fin')", True),
 }
+
+
+DEFINES = {"def_x": ["x"], "def_x0": ["x0"], "def_q": ["qq"], "def_then_fail": ["late", "late2"]}
+READS = {"read_x": "x", "read_q": "qq", "read_late": "late2", "assign_x": "x"}
 
 
 def run_history(cmds, interleave=None):
@@ -98,6 +104,13 @@ def _history_worker(hs):
         for k in range(len(h) - 1):
             if h[k] == h[k + 1] and outs[k][0][0] in ('rt', 'syn') and outs[k] != outs[k + 1]:
                 viols.append(f"repeating the failed call `{COMMANDS[h[k]][0]}` gives {outs[k + 1]} instead of {outs[k]} again (history {cmds[:k + 2]})")
+        # (1b) every definition made so far stays visible: a read of a name defined by an earlier call yields a value
+        defined = set()
+        for k, (c, o) in enumerate(zip(h, outs)):
+            if c in READS and READS[c] in defined and o[0][0] != 'val':
+                viols.append(f"`{COMMANDS[c][0]}` gives {o[0]} although `{READS[c]}` was defined by an earlier call (history {cmds[:k + 1]})")
+            if c in DEFINES and (o[0][0] == 'val' or c == "def_then_fail"):
+                defined.update(DEFINES[c])
         # (2) erasure: the surviving calls behave as if the failed remainders had never run
         if any(o[0][0] in ('rt', 'syn') for o in outs):
             srcs, expect = [], []
@@ -135,7 +148,7 @@ def run(ctx):
                 "calls behave as in the history with every failed call replaced by its completed prefix, interleaved instances behave as alone; "
                 "non-trivial = a history with >= 1 failing call followed by >= 1 later call")
     core_alpha = ["def_x", "assign_x", "read_x", "fail_expr", "syntax", "req_good", "req_missing", "req_broken", "req_cycle", "loop_abort",
-                  "def_then_fail", "read_late", "read_q", "req_failing", "loop_abort2", "read_qb"]
+                  "def_then_fail", "read_late", "read_q", "req_failing", "loop_abort2", "read_qb", "def_q", "loop_ok"]
     histories = []
     maxlen = 4 if ctx.thorough else 3
     for n in range(1, maxlen + 1):
